@@ -221,7 +221,7 @@ def items_for(t, sd):
     allp = [(val, m) for val in range(1 << nb) for m in range(1 << nb)]
     for p1, p2 in itertools.product(allp, repeat=2):
         items.append(dict(kind="single_concrete", pats=[p1, p2], nbits=nb))
-    for _ in range(60 if t == "quick" else 400):
+    for _ in range(60 if t == "quick" else 4000):
         k = rnd.randint(2, 4)
         items.append(dict(kind="single_concrete", pats=[(rnd.randrange(64), rnd.randrange(64)) for _ in range(k)], nbits=6))
     items.append(dict(kind="single_str", strs=["0b0x", "0bx0"]))
@@ -233,10 +233,10 @@ def items_for(t, sd):
     items.append(dict(kind="single_str", strs=["0b1x0x", "0bxx01"]))
     items.append(dict(kind="single_str", strs=["0x8x", "0o17x", "0b111"]))
     # valmask2binlist: all 8-bit masks with the top bit set (quick), 10-bit (thorough) + seeded wider ones
-    nb = 8 if t == "quick" else 10
+    nb = 8 if t == "quick" else 12
     for mask in range(1, 1 << nb):
         items.append(dict(kind="binlist", mask=mask))
-    for _ in range(20 if t == "quick" else 100):
+    for _ in range(20 if t == "quick" else 1000):
         w = rnd.randint(nb + 1, 16)
         m = rnd.getrandbits(w) | (1 << (w - 1))
         # keep the number of wildcard bits small enough for the expansion loop
@@ -293,7 +293,7 @@ def main():
                "the number of digits times the bits per digit")
     t = tier()
     chk.bound("sample and pattern values: %d-bit symbolic; single bins: value and mask both symbolic, 1..%d patterns" % (NB, 3 if t == "thorough" else 2),
-              "valmask2binlist: every mask up to %d bits + seeded masks up to 16 bits (<= 8 wildcard bits)" % (8 if t == "quick" else 10),
+              "valmask2binlist: every mask up to %d bits + seeded masks up to 16 bits (<= 8 wildcard bits)" % (8 if t == "quick" else 12),
               "array bins: binary strings of 2..4 digits over {0,1,x}, hex/octal samples, bin counts none/1/2/3, up to 3 patterns per bin",
               "str2bin: all binary strings of <= %d digits over {0,1,x,?,_}, 1..3 digit octal/hex strings over representative digits (enumerated)" % (4 if t == "quick" else 5))
     chk.extra["rule"] = "one evaluation = one harness configuration explored over all paths; distinct = distinct configurations"
